@@ -5,7 +5,7 @@
 From Coq Require Import String.
 From Http Require Import Model.Bytes Model.Utf8 Model.Num Model.Headers Model.Request
      Model.Chunked Model.Response Spec.HeaderGrammar Spec.ChunkedGrammar Spec.ResponseGrammar
-     Proofs.RespGrammar Proofs.PrefixNeedsMore.
+     Proofs.RespGrammar Proofs.PrefixNeedsMore Proofs.Timely.
 
 Check (eq_refl : status_line = fun codetext reason => HTTP11 ++ [SP] ++ codetext ++ [SP] ++ reason).
 Check (Fr_fixed : forall hs t n body,
@@ -49,6 +49,25 @@ Theorem C04_prefix_needs_more :
     exists st c, resp_parse resp_init p = (st, Incomplete c).
 Proof. exact response_prefix_needs_more. Qed.
 Print Assumptions C04_prefix_needs_more.
+
+(* timeliness: "more input" only while the element being read (status line, header block,
+   declared body, chunked body) is unfinished *)
+Theorem C04_more_input_only_while_unfinished :
+  forall s st c,
+    resp_parse resp_init s = (st, Incomplete c) ->
+    match s_phase st with
+    | SStatusLine => find_crlf s = None /\ c = 0
+    | SHeaders =>
+        exists e hs k, find_crlf s = Some e /\ c = e + 2 + k /\
+                       hdr_parse None [] (skipn (e + 2) s) = HIncomplete hs k
+    | SFixedBody n => c = length s /\ (N.of_nat (length (s_body st)) < n)%N
+    | SChunkedBody cs => exists e hs ch k, find_crlf s = Some e /\
+                       hdr_parse None [] (skipn (e + 2) s) = HComplete hs ch /\
+                       chunk_decode chunk_init (skipn ch (skipn (e + 2) s)) = (cs, Incomplete k) /\
+                       c = e + 2 + ch + k
+    end.
+Proof. exact response_incomplete_means_unfinished. Qed.
+Print Assumptions C04_more_input_only_while_unfinished.
 
 (* status codes 0, 007, 999 accepted, 1000 and signed rejected; empty reason; framing order *)
 Example C04_examples :
